@@ -2,10 +2,14 @@ import OFCore.Group
 /-!
 # Lemmas about the group model
 
-Core Lean only.  Sections: list utilities; `bincount`; member positions; the stable insertion
-sort (`argsortN`/`argsortE`) is the unique `Before`-sorted permutation; the ordered members map
-is the concatenation of the groups; masked assignment of one value per group; closed forms of
-`valueNth`, `reduce`, `valueFromPerson`; ranks.
+Core Lean only (no Mathlib).  Sections: list utilities; `bincount`; member positions
+(`posOf`, `membersIdx`); the stable insertion sort (`argsortN`/`argsortE`) is the unique
+`Before`-sorted permutation; the ordered members map is the concatenation of the groups; masked
+assignment of at most one value per group; closed forms of `groupSum`, `valueNth`, `reduce`
+(`any/all/min/max`), `valueFromPerson` (and its refusal when a role is held twice), `project`;
+double argsort = index in the sorted row; closed form, permutation and monotonicity of `getRank`;
+projector chains; independence from the order `numpy.argsort` gives to equal keys
+(`valueNthWith_eq`, `valueFromPersonWith_eq`, `getRankWith_eq_getRank`).
 -/
 namespace OFCore.Grp
 
@@ -29,6 +33,11 @@ theorem snoc_induction {α} {P : List α → Prop} (nil : P [])
         apply snoc; apply ih
         simp at h; omega
   exact h _ l rfl
+
+theorem range_map_spec {β} (n : Nat) (F : Nat → β) :
+    ((List.range n).map F).length = n ∧ ∀ g, g < n → ((List.range n).map F)[g]? = some (F g) := by
+  refine ⟨by simp, fun g hg => ?_⟩
+  rw [List.getElem?_map, List.getElem?_range hg]; rfl
 
 theorem maskSel_map {ι α} (l : List ι) (p : ι → Bool) (f : ι → α) :
     maskSel (l.map p) (l.map f) = (l.filter p).map f := by
@@ -1078,12 +1087,16 @@ theorem argsortN_inverse (s : List Nat) (hp : s.Perm (List.range s.length)) :
       simp only [leN, getD_idxOf s a ha', getD_idxOf s b hb', decide_eq_true_eq] at hle
       omega
 
+theorem double_argsort' (s : List Nat) (hp : s.Perm (List.range s.length)) (c : Nat)
+    (hc : c < s.length) : (argsortN s).getD c 0 = s.idxOf c := by
+  rw [argsortN_inverse _ hp]
+  simp [List.getD_eq_getElem?_getD, hc]
+
 theorem double_argsort (v : List EInt) (c : Nat) (hc : c < v.length) :
     (argsortN (argsortE v)).getD c 0 = (argsortE v).idxOf c := by
   have hp := argsortE_perm v
   have hl : (argsortE v).length = v.length := by simpa using hp.length_eq
-  rw [argsortN_inverse _ (by rw [hl]; exact hp), hl]
-  simp [List.getD_eq_getElem?_getD, hc]
+  exact double_argsort' _ (by rw [hl]; exact hp) c (by omega)
 
 /-! ## generic facts on sorted lists and indices -/
 
@@ -1186,19 +1199,23 @@ theorem posOf_lt_biggest (p : Pop) (i : Nat) (hi : i < p.ids.length) : posOf p.i
   unfold biggest; omega
 
 /-- rank of person `i`: index of its column in the sorted row of its group -/
-def rankOf (p : Pop) (f : List EInt) (i : Nat) : Nat :=
-  (argsortE (rowOf p f (biggest p) (p.ids.getD i 0))).idxOf (posOf p.ids i)
+def rankOfWith (sort1 : List EInt → List Nat) (p : Pop) (f : List EInt) (i : Nat) : Nat :=
+  (sort1 (rowOf p f (biggest p) (p.ids.getD i 0))).idxOf (posOf p.ids i)
 
-theorem getRank_eq (p : Pop) (crit : List Int) (cond : List Bool) (hc : crit.length = p.ms.length)
+def rankOf (p : Pop) (f : List EInt) (i : Nat) : Nat := rankOfWith argsortE p f i
+
+theorem getRankWith_eq (sort1 : List EInt → List Nat)
+    (hsort : ∀ row, (sort1 row).Perm (List.range row.length))
+    (p : Pop) (crit : List Int) (cond : List Bool) (hc : crit.length = p.ms.length)
     (hb : cond.length = p.ms.length) (hne : p.ms ≠ []) (hg : ∀ m ∈ p.ms, m.group < p.n) :
-    getRank p crit cond = .ok ((List.range p.ms.length).map fun i =>
-      if cond.getD i false then (rankOf p (filteredCrit crit cond) i : Int) else -1) := by
+    getRankWith sort1 p crit cond = .ok ((List.range p.ms.length).map fun i =>
+      if cond.getD i false then (rankOfWith sort1 p (filteredCrit crit cond) i : Int) else -1) := by
   have hids := ids_lt_of_ms p hg
   have hidne : p.ids ≠ [] := by simpa [Pop.ids] using hne
   have hidl : p.ids.length = p.ms.length := by simp [Pop.ids]
   have hfl : (filteredCrit crit cond).length = p.ms.length := by
     rw [filteredCrit_length _ _ (by omega)]; exact hc
-  unfold getRank
+  unfold getRankWith
   rw [membersPosition_eq _ hidne]
   simp only
   rw [if_neg (by omega)]
@@ -1228,18 +1245,28 @@ theorem getRank_eq (p : Pop) (crit : List Int) (cond : List Bool) (hc : crit.len
   · simp
   · simp only [if_true, Function.comp]
     congr 1
-    have h1 : ((List.range p.n).map fun g => argsortN (argsortE (rankRow
+    have h1 : ((List.range p.n).map fun g => argsortN (sort1 (rankRow
         ((List.range (maxL ((List.range p.ids.length).map (posOf p.ids)) + 1)).map fun k =>
           (List.range p.n).map fun g =>
             (valuesOf p none g (whereL cond (crit.map EInt.fin) EInt.posInf))[k]?.getD EInt.posInf) g))).getD
           (p.ids.getD i 0) []
-        = argsortN (argsortE (rowOf p (filteredCrit crit cond) (biggest p) (p.ids.getD i 0))) := by
+        = argsortN (sort1 (rowOf p (filteredCrit crit cond) (biggest p) (p.ids.getD i 0))) := by
       rw [List.getD_eq_getElem?_getD, List.getElem?_map, List.getElem?_range hgi]
       simp only [Option.map_some, Option.getD_some]
       rw [rankRow_eq p _ _ _ hgi]
       rfl
-    rw [h1, double_argsort _ _ (by simpa [rowOf] using posOf_lt_biggest p i hi')]
+    have hsp := hsort (rowOf p (filteredCrit crit cond) (biggest p) (p.ids.getD i 0))
+    have hsl : (sort1 (rowOf p (filteredCrit crit cond) (biggest p) (p.ids.getD i 0))).length = biggest p := by
+      simpa [rowOf] using hsp.length_eq
+    rw [h1, double_argsort' _ (by rw [hsl]; simpa [rowOf] using hsp) _
+      (by rw [hsl]; exact posOf_lt_biggest p i hi')]
     rfl
+
+theorem getRank_eq (p : Pop) (crit : List Int) (cond : List Bool) (hc : crit.length = p.ms.length)
+    (hb : cond.length = p.ms.length) (hne : p.ms ≠ []) (hg : ∀ m ∈ p.ms, m.group < p.n) :
+    getRank p crit cond = .ok ((List.range p.ms.length).map fun i =>
+      if cond.getD i false then (rankOf p (filteredCrit crit cond) i : Int) else -1) :=
+  getRankWith_eq argsortE argsortE_perm p crit cond hc hb hne hg
 
 /-! ## `get_rank`: permutation and monotonicity -/
 
@@ -1381,7 +1408,7 @@ theorem rank_perm (g : Nat) :
     have hgi := (membersIdx_lt _ _ _ hiM').2
     simp only [Function.comp]
     rw [← hidx (posOf p.ids i) (List.mem_map.mpr ⟨i, hi, rfl⟩)]
-    simp only [rankOf, hgi, s, row]
+    simp only [rankOf, rankOfWith, hgi, s, row]
   rw [hmap]
   have := map_idxOf_perm F (s.filter isFin) (List.Nodup.sublist List.filter_sublist hsnd) hperm
   simpa [F] using this
@@ -1402,7 +1429,7 @@ theorem rank_mono (i j : Nat) (hi : i < p.ms.length) (hj : j < p.ms.length)
   rw [filtered_at p crit cond hc hb i (by omega), hci] at ri
   rw [filtered_at p crit cond hc hb j (by omega), hcj] at rj
   simp only [if_true] at ri rj
-  unfold rankOf
+  unfold rankOf rankOfWith
   rw [hgrp]
   generalize hrow : rowOf p (filteredCrit crit cond) (biggest p) (p.ids.getD j 0) = row at *
   have hsperm := argsortE_perm row
@@ -1588,5 +1615,218 @@ theorem valueFromPersonWith_eq {α} (p : Pop) (mp : List Nat) (hmp : SortsByGrou
         | [y], _, hiM, hjM =>
           rw [List.mem_singleton] at hiM hjM
           rw [hiM, hjM]
+
+/-! ## `value_from_person` when the role is held twice in a group: refused -/
+
+theorem count_le_sum {γ} (L : List γ) (c : γ → Nat) :
+    (L.map fun g => decide (0 < c g)).count true ≤ (L.map c).sum := by
+  induction L with
+  | nil => simp
+  | cons x xs ih =>
+    simp only [List.map_cons, List.count_cons, List.sum_cons]
+    by_cases h : 0 < c x
+    · simp [h]; omega
+    · simp [h]; omega
+
+theorem le_sum_of_mem {γ} (L : List γ) (c : γ → Nat) (g0 : γ) (h : g0 ∈ L) : c g0 ≤ (L.map c).sum := by
+  induction L with
+  | nil => simp at h
+  | cons x xs ih =>
+    simp only [List.map_cons, List.sum_cons]
+    rcases List.mem_cons.mp h with rfl | h
+    · omega
+    · have := ih h; omega
+
+theorem count_lt_sum {γ} (L : List γ) (c : γ → Nat) (g0 : γ) (h : g0 ∈ L) (h2 : 2 ≤ c g0) :
+    (L.map fun g => decide (0 < c g)).count true < (L.map c).sum := by
+  induction L with
+  | nil => simp at h
+  | cons x xs ih =>
+    simp only [List.map_cons, List.count_cons, List.sum_cons]
+    rcases List.mem_cons.mp h with rfl | h
+    · have := count_le_sum xs c
+      have h0 : 0 < c g0 := by omega
+      simp [h0]; omega
+    · have := ih h
+      by_cases h0 : 0 < c x
+      · simp [h0]; omega
+      · simp [h0]; omega
+
+theorem head?_isSome_eq {α} (l : List α) : l.head?.isSome = decide (0 < l.length) := by
+  cases l <;> simp
+
+theorem valueFromPerson_nonunique {α} (p : Pop) (a : List α) (r : Role) (d : α)
+    (hlen : a.length = p.ms.length) (hg : ∀ m ∈ p.ms, m.group < p.n) (g0 : Nat) (hg0 : g0 < p.n)
+    (h2 : 2 ≤ (valuesOf p (some r) g0 a).length) :
+    ∃ e, valueFromPerson p a r d = .error e := by
+  have hids := ids_lt_of_ms p hg
+  unfold valueFromPerson valueFromPersonWith
+  by_cases hmax : r.max ≠ some 1
+  · rw [if_pos hmax]; exact ⟨_, rfl⟩
+  rw [if_neg hmax, if_neg (by omega)]
+  rw [groupAny_eq p (p.hasRole r) none (by simp [Pop.hasRole]) hg]
+  simp only
+  rw [orderedMap_eq _ _ hids]
+  have hmask : ((List.range p.n).map fun g => (valuesOf p none g (p.hasRole r)).any id)
+      = (List.range p.n).map fun g => decide (0 < (valuesOf p (some r) g a).length) := by
+    apply List.map_congr_left
+    intro g _
+    rw [valuesOf_none_eq_idx p (p.hasRole r) false (by simp [Pop.hasRole]) g,
+      valuesOf_some_eq_idx p a d hlen r g, any_map_eq_head? _ _ (fun i => a.getD i d),
+      head?_isSome_eq]
+  have hvals : maskSel (takeD (p.hasRole r) ((List.range p.n).flatMap (membersIdx p.ids)) false)
+      (takeD a ((List.range p.n).flatMap (membersIdx p.ids)) d)
+      = (List.range p.n).flatMap (fun g => valuesOf p (some r) g a) := by
+    simp only [takeD]
+    rw [maskSel_map, List.filter_flatMap, List.map_flatMap]
+    apply flatMap_congr'
+    intro g _
+    rw [← valuesOf_some_eq_idx p a d hlen r g]
+  rw [hmask, hvals]
+  have hmem : g0 ∈ List.range p.n := List.mem_range.mpr hg0
+  have hlt := count_lt_sum (List.range p.n) (fun g => (valuesOf p (some r) g a).length) g0 hmem h2
+  have hge := le_sum_of_mem (List.range p.n) (fun g => (valuesOf p (some r) g a).length) g0 hmem
+  have hvl : ((List.range p.n).flatMap fun g => valuesOf p (some r) g a).length
+      = ((List.range p.n).map fun g => (valuesOf p (some r) g a).length).sum := List.length_flatMap
+  unfold maskedAssign
+  rw [if_neg (by simp), if_neg (by rw [hvl]; omega)]
+  generalize (List.range p.n).flatMap (fun g => valuesOf p (some r) g a) = vals at hvl
+  match vals, hvl with
+  | [], _ => exact ⟨_, rfl⟩
+  | [v], hvl => simp at hvl; omega
+  | _ :: _ :: _, _ => exact ⟨_, rfl⟩
+
+/-! ## `get_rank`: the order among tied entries does not matter for distinct criteria -/
+
+section ties
+variable (p : Pop) (crit : List Int) (cond : List Bool) (hc : crit.length = p.ms.length)
+  (hb : cond.length = p.ms.length)
+
+include hc hb in
+/-- a finite entry of a row is the criterion of a member of the group satisfying the condition -/
+theorem finite_col (g c : Nat) (hcB : c < biggest p)
+    (hfin : (rowOf p (filteredCrit crit cond) (biggest p) g).getD c .posInf ≠ .posInf) :
+    ∃ i ∈ membersIdx p.ids g, cond.getD i false = true ∧ posOf p.ids i = c ∧
+      (rowOf p (filteredCrit crit cond) (biggest p) g).getD c .posInf = .fin (crit.getD i 0) := by
+  have hidl : p.ids.length = p.ms.length := by simp [Pop.ids]
+  have hfl : (filteredCrit crit cond).length = p.ms.length := by
+    rw [filteredCrit_length _ _ (by omega)]; exact hc
+  have hrow := rowOf_getD p (filteredCrit crit cond) hfl (biggest p) g c
+  rw [if_pos hcB] at hrow
+  cases hMc : (membersIdx p.ids g)[c]? with
+  | none =>
+    rw [hrow, hMc] at hfin
+    exact absurd rfl hfin
+  | some i =>
+    have hiM : i ∈ membersIdx p.ids g := List.mem_of_getElem? hMc
+    have hilt := (membersIdx_lt _ _ _ hiM).1
+    rw [hMc] at hrow
+    simp only [Option.map_some, Option.getD_some] at hrow
+    rw [filtered_at p crit cond hc hb i hilt] at hrow
+    have hci : cond.getD i false = true := by
+      cases h : cond.getD i false
+      · rw [hrow, h] at hfin; exact absurd rfl hfin
+      · rfl
+    rw [hci] at hrow
+    refine ⟨i, hiM, hci, ?_, hrow⟩
+    have e := membersIdx_getElem_posOf _ _ _ hiM
+    have hnd : (membersIdx p.ids g).Nodup :=
+      List.Pairwise.imp (fun {a b} h => Nat.ne_of_lt h) (membersIdx_pairwise_lt _ _)
+    have h1 := (List.getElem?_eq_some_iff.mp e).1
+    have h2 := (List.getElem?_eq_some_iff.mp hMc).1
+    have e1 := (List.getElem?_eq_some_iff.mp e).2
+    have e2 := (List.getElem?_eq_some_iff.mp hMc).2
+    exact (List.getElem_inj hnd).mp (e1.trans e2.symm)
+
+include hc hb in
+theorem rankOfWith_eq (sort1 : List EInt → List Nat) (hsort : ∀ row, SortsRow row (sort1 row))
+    (hdist : ∀ i j, i < p.ms.length → j < p.ms.length → p.ids.getD i 0 = p.ids.getD j 0 →
+      cond.getD i false = true → cond.getD j false = true → crit.getD i 0 = crit.getD j 0 → i = j)
+    (i : Nat) (hi : i < p.ms.length) (hci : cond.getD i false = true) :
+    rankOfWith sort1 p (filteredCrit crit cond) i = rankOf p (filteredCrit crit cond) i := by
+  have hidl : p.ids.length = p.ms.length := by simp [Pop.ids]
+  have hfl : (filteredCrit crit cond).length = p.ms.length := by
+    rw [filteredCrit_length _ _ (by omega)]; exact hc
+  unfold rankOf rankOfWith
+  generalize hgdef : p.ids.getD i 0 = g
+  have hiM : i ∈ membersIdx p.ids g := (mem_membersIdx _ _ _).mpr ⟨by omega, hgdef⟩
+  have hrowi := rowOf_at_member p _ hfl g i hiM
+  rw [filtered_at p crit cond hc hb i (by omega), hci] at hrowi
+  simp only [if_true] at hrowi
+  have hcB := posOf_lt_biggest p i (by omega : i < p.ids.length)
+  have hfc := finite_col p crit cond hc hb g
+  generalize hrow : rowOf p (filteredCrit crit cond) (biggest p) g = row at *
+  have hrl : row.length = biggest p := by rw [← hrow, rowOf_length]
+  generalize posOf p.ids i = c at *
+  let isFin : Nat → Bool := fun c => row.getD c .posInf != .posInf
+  have hcfin : isFin c = true := by
+    show (row.getD c .posInf != .posInf) = true
+    rw [hrowi]; simp
+  -- finite entries are pairwise distinct
+  have hinj : ∀ a b, a < biggest p → b < biggest p → isFin a = true → isFin b = true →
+      row.getD a .posInf = row.getD b .posInf → a = b := by
+    intro a b ha hb' hfa hfb hab
+    obtain ⟨ia, hia, hca, hpa, hra⟩ := hfc a ha (by simpa [isFin] using hfa)
+    obtain ⟨ib, hib, hcb, hpb, hrb⟩ := hfc b hb' (by simpa [isFin] using hfb)
+    rw [hra, hrb] at hab
+    have hia' := membersIdx_lt _ _ _ hia
+    have hib' := membersIdx_lt _ _ _ hib
+    have : ia = ib := hdist ia ib (by omega) (by omega) (hia'.2.trans hib'.2.symm) hca hcb
+      (by simpa using hab)
+    rw [← hpa, ← hpb, this]
+  have split : ∀ s : List Nat, SortsRow row s → s.idxOf c = (s.filter isFin).idxOf c := by
+    intro s hs
+    have hsplit : s = s.filter isFin ++ s.filter (fun c => !isFin c) := by
+      apply sorted_split isFin s hs.2
+      intro a b ha hb' hab
+      have h1 : row.getD a .posInf = .posInf := by simpa [isFin] using ha
+      rw [h1] at hab
+      have := EInt.posInf_le _ hab
+      simp only [isFin] at hb'
+      rw [this] at hb'
+      simp at hb'
+    have hmem : c ∈ s.filter isFin :=
+      List.mem_filter.mpr ⟨hs.1.mem_iff.mpr (List.mem_range.mpr (by omega)), hcfin⟩
+    have : s.idxOf c = (s.filter isFin ++ s.filter (fun c => !isFin c)).idxOf c := by rw [← hsplit]
+    rw [this, List.idxOf_append, if_pos hmem]
+  have hs1 := hsort row
+  have hs2 : SortsRow row (argsortE row) := by
+    refine ⟨argsortE_perm row, List.Pairwise.imp ?_ (argsortE_pairwise row)⟩
+    intro a b hab
+    exact hab.1
+  rw [split _ hs1, split _ hs2]
+  congr 1
+  apply List.Perm.eq_of_pairwise
+    (le := fun a b => (row.getD a .posInf).le (row.getD b .posInf) = true)
+  · intro a b ha hb' hab hba
+    have ha' := List.mem_filter.mp ha
+    have hb'' := List.mem_filter.mp hb'
+    exact hinj a b (by have := List.mem_range.mp (hs1.1.mem_iff.mp ha'.1); omega)
+      (by have := List.mem_range.mp (hs2.1.mem_iff.mp hb''.1); omega) ha'.2 hb''.2
+      (EInt.le_antisymm _ _ hab hba)
+  · exact List.Pairwise.filter _ hs1.2
+  · exact List.Pairwise.filter _ hs2.2
+  · exact (hs1.1.trans hs2.1.symm).filter _
+
+include hc hb in
+theorem getRankWith_eq_getRank (sort1 : List EInt → List Nat)
+    (hsort : ∀ row, SortsRow row (sort1 row)) (hne : p.ms ≠ []) (hg : ∀ m ∈ p.ms, m.group < p.n)
+    (hdist : ∀ i j, i < p.ms.length → j < p.ms.length → p.ids.getD i 0 = p.ids.getD j 0 →
+      cond.getD i false = true → cond.getD j false = true → crit.getD i 0 = crit.getD j 0 → i = j) :
+    getRankWith sort1 p crit cond = getRank p crit cond := by
+  rw [getRankWith_eq sort1 (fun row => (hsort row).1) p crit cond hc hb hne hg,
+    getRank_eq p crit cond hc hb hne hg]
+  congr 1
+  apply List.map_congr_left
+  intro i hi
+  cases hci : cond.getD i false
+  · rfl
+  · simp only [if_true]
+    rw [rankOfWith_eq p crit cond hc hb sort1 hsort hdist i (List.mem_range.mp hi) hci]
+
+end ties
+
+theorem argsortE_sortsRow (row : List EInt) : SortsRow row (argsortE row) :=
+  ⟨argsortE_perm row, List.Pairwise.imp (fun {_ _} hab => hab.1) (argsortE_pairwise row)⟩
 
 end OFCore.Grp
